@@ -140,6 +140,70 @@ def event_kind(desc_case_line):
     return desc_case_line
 
 
+ABS_PROPS = {"C01", "C02", "C03", "C04", "C06"}
+ABS_CODES = {1: "no projection listed for the event's node", 2: "observed projections differ from the abstract state after the event",
+             10: "election started by node 0", 11: "election started by a node that is leader",
+             20: "vote granted to candidate 0", 21: "vote granted for an election nobody started", 22: "vote granted although the voter "
+             "already voted for another candidate in that term (or the term is older)", 23: "vote granted to a candidate whose log is not up to date",
+             30: "vote answer counted by a node that is not candidate", 31: "vote of a non-voter counted", 32: "vote counted that was never granted "
+             "for this term", 33: "vote of one voter counted twice", 40: "append request written by a non-leader", 41: "append request with prevLogIndex "
+             "beyond the leader's log", 42: "append request announces a commit index beyond the leader's", 43: "append request is not a slice of the "
+             "leader's log (term, prevLogTerm or entries differ)", 50: "append request delivered that no leader sent", 51: "leader handled its own request",
+             60: "acknowledgement handled by a non-leader", 61: "acknowledgement handled that no follower gave (term, follower, match index)",
+             70: "became leader without a majority of counted votes", 80: "commit index beyond the log", 81: "leader committed an entry of an older term directly",
+             82: "leader advanced the commit index without acknowledgements of a majority of voters", 90: "flushed index beyond the log"}
+
+
+def run_abs(pid, tier, seed, wd):
+    """Cluster-level tie: observed histories of real nodes must be runs of the abstract protocol (coq/Abs/Exec.v, proved sound)."""
+    import re
+    import shutil
+    nseq, nsteps = (16, 700) if tier == "quick" else (240, 1500)
+    rc, out = vlib.vh(["raft", "abs", seed, nseq, nsteps, wd], timeout=3000)
+    if rc != 0:
+        return [{"signature": "harness-died abs", "detail": out[-1500:], "found": True,
+                 "replay": {"property": pid, "kind": "process died while driving the real code", "driver": "abs", "output_tail": out[-3000:]}}], None, {}
+    meta = json.load(open(os.path.join(wd, "abs_meta.json")))
+    files = sorted(glob.glob(os.path.join(wd, "cases_abs_*.v")))
+    viols, broken, accepted = [], None, 0
+
+    def ev(f):
+        rc, out = vlib.sh("coqc -R %s Verif -Q . Cases %s" % (vlib.COQ, os.path.basename(f)), cwd=wd, timeout=1800)
+        return rc, out
+    import concurrent.futures as cf
+    with cf.ThreadPoolExecutor(max_workers=16) as ex:
+        results = list(ex.map(ev, files))
+    for f, (rc, out) in zip(files, results):
+        if rc != 0 or "R =" not in out:
+            broken = "model evaluation failed on %s: %s" % (os.path.basename(f), out[-1200:])
+            continue
+        for run_id, code in re.findall(r"\((\d+)%nat,\s*(\d+)%nat\)", out):
+            run_id, code = int(run_id), int(code)
+            if code == 0:
+                accepted += 1
+                continue
+            c = code - 1
+            idx, why = c // 1000, c % 1000
+            src = os.path.join(wd, "abs_run_%d.txt" % run_id)
+            evs = open(src).read().split("\n") if os.path.exists(src) else []
+            keep = os.path.join(vlib.ROOT, "replays", "%s_abs_run_%d_seed%s.txt" % (pid, run_id, seed))
+            os.makedirs(os.path.dirname(keep), exist_ok=True)
+            if os.path.exists(src):
+                shutil.copyfile(src, keep)
+            viols.append({"signature": "abs-refinement %s" % ABS_CODES.get(why, "code %d" % why), "found": True,
+                          "detail": "%s: event #%d is not a step of the abstract protocol: %s; event: %s" % (
+                              meta["desc"].get(str(run_id)), idx, ABS_CODES.get(why, why), evs[idx][:600] if idx < len(evs) else "?"),
+                          "replay": {"property": pid, "kind": "observed history of real nodes rejected by Abs/Exec.v", "run": run_id, "seed": seed,
+                                     "event_index": idx, "reason_code": why, "reason": ABS_CODES.get(why, ""), "event": evs[idx] if idx < len(evs) else None,
+                                     "history_file": keep, "case_file": f,
+                                     "how": "vh raft abs %s %s %s <dir>; coqc evaluates Exec.run V history" % (seed, nseq, nsteps)}})
+    for e in meta.get("errors") or []:
+        viols.append({"signature": "driver-error " + e[:40], "detail": e, "found": True, "replay": {"property": pid, "kind": "driver error", "what": e}})
+    cov = {"abs_histories": len(meta["desc"]), "abs_histories_accepted": accepted, "abs_events": meta["events"], "abs_distribution": meta["dist"],
+           "abs_samples": meta["samples"][:2]}
+    return viols, broken, cov
+
+
 def run_node(pid, tier, seed):
     spec = NODE_PROPS[pid]
     wd = vlib.workdir(pid)
@@ -191,6 +255,11 @@ def run_node(pid, tier, seed):
         for e in meta.get("errors") or []:
             viols.append({"signature": "driver-error " + e[:40], "detail": e, "found": True,
                           "replay": {"property": pid, "kind": "driver error", "what": e}})
+    abs_cov = {}
+    if pid in ABS_PROPS:
+        av, ab, abs_cov = run_abs(pid, tier, seed, vlib.workdir(pid + "_abs"))
+        viols.extend(av)
+        broken = broken or ab
     # dedupe by signature (keep first 3 of each)
     seen, out = {}, []
     for v in viols:
@@ -205,6 +274,10 @@ def run_node(pid, tier, seed):
                    "model: reply, task replies, messages, full post-state. Monitors run on the implementation after every event. "
                    "distinct_nontrivial = distinct pre-states (full node dumps)",
            "samples": samples[:4], "distribution": dist, "traces_validated_against_impl": total}
+    cov.update(abs_cov)
+    if abs_cov:
+        cov["rule"] += ("; abstract tie: %d whole-cluster histories (static membership, no snapshots; %d events) of the real nodes were checked by "
+                        "Abs/Exec.v to be runs of the abstract protocol the safety theorems are proved about" % (abs_cov["abs_histories"], abs_cov["abs_events"]))
     return {"violations": out, "coverage": cov, "tie_broken": broken}
 
 
@@ -226,7 +299,8 @@ reg_node("C01", "Theorems: election safety for every reachable state of the abst
          "vote per (term, voter), every elected node has a majority of recorded votes; two majorities meet. Tie: the node model's vote handlers "
          "(on_vote_request, start_election, on_vote_result, restart) are compared event by event with the real handlers; monitor: two nodes "
          "leader in one term on the simulated cluster.",
-         ["static voter set in the abstract theorem; under membership changes safety additionally needs overlapping majorities (C08)"])
+         ["static voter set in the abstract theorem; under membership changes safety additionally needs overlapping majorities (C08)"],
+         extra_props=["AbsTie.v"])
 
 
 # ------------------------------------------------------------------ C14
@@ -315,7 +389,7 @@ reg_node("C06", "Theorems (node level, every state/input): the commit point the 
          "flushing the leader's own log; a follower answers success only after flushing what it appended and commits only covered, leader-committed, "
          "current-term entries. Cluster-level theorem (abstract protocol): see Props/C06.v when present. Monitor: at every commit advance on the "
          "simulated cluster, count the voters that hold the entry flushed.",
-         ["NoDup node ids in a configuration (Go map)"])
+         ["NoDup node ids in a configuration (Go map)"], extra_props=["AbsTie.v"])
 reg_node("C08", "Theorems: every configuration derived by one action is adjacent (voter sets differ in at most one node) and majorities of adjacent "
          "configurations intersect; a submitted configuration is rejected unless the previous one is committed, an own-term entry is committed, no "
          "voting right changes directly, no node vanishes, new nodes are non-voters and a stable voter remains; actions are carried out only when "
@@ -383,15 +457,15 @@ reg_node("C02", "Theorems: (abstract protocol, Props/C02.v when present) leader 
          "interleaving; (node level, Props/C02_rules.v) a vote is newly cast only for an at-least-as-up-to-date log, a follower truncates only "
          "from the first conflicting index, holds every request entry as sent, the follower commit index moves only to covered current-term "
          "entries, a leader's log is append-only. Monitors: committed entries never differ between nodes, every leader holds all committed entries.",
-         ["static voter set in the abstract theorems; voter-set changes need the overlap hypothesis (C08)"], extra_props=["C02_rules.v"])
+         ["static voter set in the abstract theorems; voter-set changes need the overlap hypothesis (C08)"], extra_props=["C02_rules.v", "AbsTie.v"])
 reg_node("C03", "Theorems: (abstract protocol, Props/C03.v when present) committed prefixes of any two nodes are prefix-related; (node level) the "
          "state machine is fed the entries after its position up to the commit index contiguously, in order, once (apply_is_contiguous, "
          "queue_applied_in_order). Monitor: state-machine command lists of all nodes are pairwise prefix-related after every event.",
-         ["deterministic FSM"], extra_props=["C02_rules.v", "C09.v"])
+         ["deterministic FSM"], extra_props=["C02_rules.v", "C09.v", "AbsTie.v"])
 reg_node("C04", "Theorems: (abstract protocol, Props/C04.v) log matching for any two logs of any reachable state and leader append-only; (node level) "
          "requests are faithful log slices with the right prevLogTerm, followers hold request entries exactly as sent, leaders never rewrite "
          "their log. Monitor: (index, term) -> (type, payload, predecessor term) stays a function over every log ever dumped.",
-         [], extra_props=["C02_rules.v"])
+         [], extra_props=["C02_rules.v", "AbsTie.v"])
 reg_node("C07", "Theorems (node level): non-leaders reject definitively and change nothing; a transferring/demoted leader rejects the whole batch; "
          "accepted updates are appended in batch order at the next indices with the leader's term; tasks are released only as a committed prefix "
          "of the queue (so a read/barrier reflects every update accepted before it); an update's reply is the state machine's result for the entry "
@@ -421,3 +495,42 @@ reg_node("C16", "Theorems: timeout-now goes only to another voter that is reacha
          "only when the leader is released having seen a higher term; every other ending reports an error and clears the transfer; impossible "
          "requests are refused unchanged; a node told to time out now campaigns with the transfer flag. Two leaders in one term: C01.",
          [])
+
+
+# ------------------------------------------------------------------ C15
+
+def run_c15(pid, tier, seed):
+    """Node-model runs (panic monitor, ledger events) + the live driver: real Serve, goroutines and timers."""
+    r = run_node(pid, tier, seed)
+    wd = vlib.workdir(pid + "_live")
+    secs = 12 if tier == "quick" else 180
+    rc, out = vlib.vh(["raft", "live", seed, secs, wd], timeout=secs + 600)
+    viols = r.get("violations", [])
+    cov = r.get("coverage", {})
+    if rc != 0:
+        viols.append({"signature": "live-died", "detail": out[-1500:], "found": True,
+                      "replay": {"property": pid, "kind": "live cluster process died (panic, fatal error or deadlock)", "seed": seed, "seconds": secs,
+                                 "output_tail": out[-4000:], "cmd": "vh raft live %s %s <dir>" % (seed, secs)}})
+    else:
+        meta = json.load(open(os.path.join(wd, "live_meta.json")))
+        for fnd in meta.get("findings") or []:
+            prop, sig, detail = (fnd.split("|", 3) + ["", "", ""])[:3]
+            viols.append({"signature": "live " + sig, "detail": detail, "found": True,
+                          "replay": {"property": pid, "kind": "monitor on a live cluster", "monitor": sig, "what": detail, "seed": seed, "seconds": secs}})
+        cov["live_seconds"] = meta.get("seconds")
+        cov["live_tasks_completed"] = meta.get("tasks")
+        cov["live_fsm_lengths"] = meta.get("fsm_lengths")
+        cov["rule"] = cov.get("rule", "") + ("; live driver: %s s of a real 3-5 node cluster (Serve, goroutines, timers, in-memory network; concurrent clients, "
+                                             "snapshots, membership changes, transfers, partitions, restarts): no panic, every task completes, Shutdown returns, "
+                                             "state machines prefix-related" % secs)
+    r["violations"], r["coverage"] = viols, cov
+    return r
+
+
+register("C15", run=run_c15, extra_props=(), tie="coq/Node/Cases.v (every event: reply multiset, panics) vs the handlers; live cluster driver go/inpkg/live.go",
+         assumptions=NODE_ASSUME + ["no storage or state-machine I/O errors (the property's own premise)"], trusted=NODE_TRUST + ["live driver monitors"],
+         level_text="Theorems (node level, every state and event): the task ledger - tasks pending before an event plus those it submits are, as a multiset, "
+                    "the tasks pending after it plus those it answered, so over any history no task is answered twice and none is dropped; the end of "
+                    "leadership and shutdown answer everything pending (ServerClosed on shutdown). PARTIAL by nature: data races, concurrent map access, "
+                    "deadlocks and goroutine leaks live in the Go runtime and are outside any executable model; the panic monitor of the simulator and "
+                    "the live driver exercise them (supporting search, not proof).")
